@@ -1,6 +1,7 @@
 package main
 
 import (
+	"net/http"
 	"fmt"
 	"net/http/httptest"
 	"strconv"
@@ -59,7 +60,7 @@ func parseChainActs(s string) ([]chainAct, bool) {
 				return nil, false
 			}
 			out = append(out, chainAct{kind: k})
-		case 'e', 's', 'x', 'i', 'c', 'w':
+		case 'e', 's', 'x', 'i', 'c', 'w', 'b':
 			n, err := strconv.Atoi(tok[1:])
 			if err != nil || n < 0 {
 				return nil, false
@@ -89,6 +90,25 @@ func mkHandler(cr *chainRun, pos int, acts []chainAct) rux.HandlerFunc {
 		cr.add("E%d", pos)
 		for _, a := range acts {
 			switch a.kind {
+			case 'b':
+				// a marker for the model; the real handler also swaps c.Resp for a transparent buffering
+				// writer (same status/commit rules as rux's own) until it returns, then replays into the
+				// original. Helpers must go through c.Resp, so this must not change anything observable.
+				cr.add("M%d.%d", pos, a.arg)
+				orig := c.Resp
+				buf := &bufResp{h: orig.Header()}
+				c.Resp = buf
+				defer func() {
+					c.Resp = orig
+					st := buf.status
+					if st <= 0 {
+						st = 200 // like every buffering middleware: the recorded status, 200 if none was recorded
+					}
+					orig.WriteHeader(st)
+					if buf.wrote {
+						_, _ = orig.Write(buf.body)
+					}
+				}()
 			case 'e':
 				cr.add("M%d.%d", pos, a.arg)
 			case 'n':
@@ -120,6 +140,27 @@ func mkHandler(cr *chainRun, pos int, acts []chainAct) rux.HandlerFunc {
 		}
 		cr.add("L%d", pos)
 	}
+}
+
+// bufResp: a buffering http.ResponseWriter with the commit rules of rux's responseWriter
+// (the last positive status before the first write counts).
+type bufResp struct {
+	h      http.Header
+	status int
+	wrote  bool
+	body   []byte
+}
+
+func (b *bufResp) Header() http.Header { return b.h }
+func (b *bufResp) WriteHeader(c int) {
+	if c > 0 && !b.wrote {
+		b.status = c
+	}
+}
+func (b *bufResp) Write(p []byte) (int, error) {
+	b.wrote = true
+	b.body = append(b.body, p...)
+	return len(p), nil
 }
 
 /**************** building the router ****************/
@@ -488,6 +529,10 @@ func (chainEngine) Corpus() []Case {
 		chainCaseOf([]string{"n"}, nil, []string{"s0,i1"}, "e1"),
 		chainCaseOf([]string{"n,c201"}, nil, []string{"x403,i1"}, "e1"),
 		chainCaseOf([]string{"c0,n"}, nil, []string{"x0"}, "e1"),
+		// a middleware that wraps c.Resp (buffering writer) around the rest of the chain: AbortWithStatus
+		// below it must still determine the status
+		chainCaseOf([]string{"b7,n,i1"}, nil, []string{"s403,i1"}, "e1"),
+		chainCaseOf([]string{"e1,n"}, []string{"b7,n"}, []string{"n"}, "x401,n"),
 		// single handler chains
 		chainCaseOf(nil, nil, nil, "-"),
 		chainCaseOf(nil, nil, nil, "n,n,i0,a,i1,n"),
@@ -691,6 +736,27 @@ func (chainEngine) Gen(r *Rand, tier string) Case {
 	hs := make([]string, n)
 	for i := range hs {
 		hs[i] = genHandler(r, abortAt[i], rich)
+	}
+	// a buffering wrapper around c.Resp in one handler that calls Next(): only in chains where every
+	// status goes through c.Resp (AbortWithStatus), never through c.SetStatus, so that it is transparent
+	if r.Chance(1, 5) {
+		hasC := false
+		for _, h := range hs {
+			for _, tok := range strings.Split(h, ",") {
+				if strings.HasPrefix(tok, "c") {
+					hasC = true
+				}
+			}
+		}
+		if !hasC {
+			i := r.Intn(n)
+			if hs[i] == "-" {
+				hs[i] = "b7,n"
+			} else {
+				hs[i] = "b7," + hs[i]
+			}
+			plan += "-wrap"
+		}
 	}
 	ops := []string{"new"}
 	for i := 0; i < G; i++ {
